@@ -76,6 +76,9 @@ FciCfg(v) ==
 Family == << << 242, 12, TRUE >>, << 199, 4, FALSE >>, << 207, 8, TRUE >>, << 0, 16, TRUE >>,
              << 255, 12, TRUE >>, << 192, 28, TRUE >> >>
 
+\* very long payloads are scripted compactly as big = [rep |-> byte, n |-> count]
+BigOr(c, v) == IF Has(c, "big") THEN [i \in 1..c.big.n |-> c.big.rep] ELSE v
+
 RECURSIVE BuildCfg(_, _)
 NewCfg(kind, c) ==
     CASE kind = "sr"   -> [kind |-> "sr", ssrc |-> c.ssrc, padding |-> 0, ntp |-> << 0, 0, 0, 0 >>, rtp |-> Z32,
@@ -84,7 +87,7 @@ NewCfg(kind, c) ==
       [] kind = "sdes" -> [kind |-> "sdes", padding |-> 0, chunks |-> <<>>]
       [] kind = "bye"  -> [kind |-> "bye", padding |-> 0, sources |-> <<>>, reason |-> <<>>]
       [] kind = "app"  -> [kind |-> "app", ssrc |-> c.ssrc, padding |-> 0, subtype |-> 0, name |-> c.name, data |-> <<>>]
-      [] kind = "unk"  -> [kind |-> "unk", type |-> c.type, count |-> 0, padding |-> 0, data |-> c.data]
+      [] kind = "unk"  -> [kind |-> "unk", type |-> c.type, count |-> 0, padding |-> 0, data |-> BigOr(c, c.data)]
       [] kind \in {"tfb", "pfb"} -> [kind |-> kind, sender |-> Z32, media |-> Z32, padding |-> 0, fci |-> FciCfg(c.fci)]
       [] kind = "custom" -> [kind |-> "custom", pt |-> Family[c.fam + 1][1], min |-> Family[c.fam + 1][2],
                              has_ssrc |-> Family[c.fam + 1][3], ssrc |-> c.ssrc, padding |-> 0, count |-> 0, payload |-> <<>>]
@@ -101,7 +104,7 @@ ApplyCall(cfg, c) ==
       [] c.c = "add_source" -> [cfg EXCEPT !.sources = Append(@, c.v)]
       [] c.c = "reason"     -> [cfg EXCEPT !.reason = c.v]
       [] c.c = "subtype"    -> [cfg EXCEPT !.subtype = c.v]
-      [] c.c = "data"       -> [cfg EXCEPT !.data = c.v]
+      [] c.c = "data"       -> [cfg EXCEPT !.data = BigOr(c, c.v)]
       [] c.c = "count"      -> [cfg EXCEPT !.count = c.v]
       [] c.c = "sender"     -> [cfg EXCEPT !.sender = c.v]
       [] c.c = "media"      -> [cfg EXCEPT !.media = c.v]
@@ -581,7 +584,8 @@ CustomConf(fam, b, r) ==
                     /\ RegularPad(b, IF hs THEN 8 ELSE 4) =>
                           SlOk(d.view.payload, IF hs THEN 8 ELSE 4, Len(b) - PadCount(b) - (IF hs THEN 8 ELSE 4), 0)
               \* via Packet::parse + try_as and via Unknown::parse + try_as: every field intact
-              /\ (pt \notin 200..206 /\ FramedUnknown(b)) => (r.via_packet = d /\ r.via_unknown = d)
+              /\ (FramedUnknown(b) /\ PType(b) \notin 200..206) => (r.via_packet = d /\ r.via_unknown = d)
+              /\ FramedUnknown(b) => r.via_unknown = d
         /\ (P("C18") \/ P("C19")) => (IsErr(d) => ErrAllowed(min, pt, b, AsErr(d)))
 
 =============================================================================
